@@ -290,7 +290,7 @@ package limiter
 //@   ensures[C11] for_the_peeked_waiter: ncalls("core.Limiter.Acquire") == 1 ==> callrecv("core.Limiter.Acquire", 0) == l.limiter.delegate && ncalls("(*limiter.queue).peek") == 1 && callarg("core.Limiter.Acquire", 0, 0) == callres("(*limiter.queue).peek", 0, 1).ctx
 //@   ensures[C02,C11,C12,C19] granted_is_evicted_then_handed: ncalls("core.Limiter.Acquire") == 1 && callres("core.Limiter.Acquire", 0, 1) && callres("core.Limiter.Acquire", 0, 0) != nil ==> ncalls("(*limiter.queue).evictionFunc$1") == 1 && ncalls("select") == 1 && callpos("(*limiter.queue).evictionFunc$1", 0) < callpos("select", 0) && callarg("select", 0, 1) == callres("core.Limiter.Acquire", 0, 0) && callarg("select", 0, 0) == callres("(*limiter.queue).peek", 0, 1).releaseChan
 //@   ensures[C02,C19] handed_or_returned: ncalls("core.Limiter.Acquire") == 1 && callres("core.Limiter.Acquire", 0, 1) && callres("core.Limiter.Acquire", 0, 0) != nil ==> (callres("select", 0, 0) == 0 && ncalls("core.Listener.OnIgnore") == 0) || (callres("select", 0, 0) != 0 && ncalls("core.Listener.OnIgnore") == 1 && callrecv("core.Listener.OnIgnore", 0) == callres("core.Limiter.Acquire", 0, 0))
-//@   ensures[C02,C11] refused_touches_nothing: ncalls("core.Limiter.Acquire") == 1 && !(callres("core.Limiter.Acquire", 0, 1) && callres("core.Limiter.Acquire", 0, 0) != nil) ==> ncalls("(*limiter.queue).evictionFunc$1") == 0 && ncalls("select") == 0 && ncalls("core.Listener.OnIgnore") == 0
+//@   ensures[C02,C11,C12] refused_touches_nothing: ncalls("core.Limiter.Acquire") == 1 && !(callres("core.Limiter.Acquire", 0, 1) && callres("core.Limiter.Acquire", 0, 0) != nil) ==> ncalls("(*limiter.queue).evictionFunc$1") == 0 && ncalls("select") == 0 && ncalls("core.Listener.OnIgnore") == 0
 //@   ensures[C02] never_completes_otherwise: ncalls("core.Listener.OnSuccess") == 0 && ncalls("core.Listener.OnDropped") == 0
 //@   ensures[C12,C17] serialised: ncalls("core.Limiter.Acquire") == 1 ==> calledUnder("core.Limiter.Acquire", 0, l.limiter.mu)
 //@   owns[C17]
@@ -309,7 +309,7 @@ package limiter
 //@ func (*QueueBlockingLimiter).tryAcquire
 //@   maintains l
 //@   ensures[C02] first_try: ncalls("core.Limiter.Acquire") == 1 && callrecv("core.Limiter.Acquire", 0) == l.delegate && callarg("core.Limiter.Acquire", 0, 0) == ctx
-//@   ensures[C02] immediate_grant: callres("core.Limiter.Acquire", 0, 1) && callres("core.Limiter.Acquire", 0, 0) != nil ==> result == callres("core.Limiter.Acquire", 0, 0) && ncalls("(*limiter.queue).push") == 0
+//@   ensures[C02,C12] immediate_grant: callres("core.Limiter.Acquire", 0, 1) && callres("core.Limiter.Acquire", 0, 0) != nil ==> result == callres("core.Limiter.Acquire", 0, 0) && ncalls("(*limiter.queue).push") == 0
 //@   ensures[C12] full_backlog_refuses_at_once: !(callres("core.Limiter.Acquire", 0, 1) && callres("core.Limiter.Acquire", 0, 0) != nil) && callres("(*limiter.queue).len", 0, 0) >= l.maxBacklogSize ==> result == nil && ncalls("(*limiter.queue).push") == 0 && ncalls("select") == 0
 //@   ensures[C12,C19] waits_when_below_bound: !(callres("core.Limiter.Acquire", 0, 1) && callres("core.Limiter.Acquire", 0, 0) != nil) && callres("(*limiter.queue).len", 0, 0) < l.maxBacklogSize ==> ncalls("(*limiter.queue).push") == 1
 //@   ensures[C12] bound_read_after_the_delegate_refused: ncalls("(*limiter.queue).len") == 1 ==> callpos("core.Limiter.Acquire", 0) < callpos("(*limiter.queue).len", 0)
